@@ -103,6 +103,8 @@ def gen_plan(rng, index, tier):
         pt = rng.choice(pts)
         uid += 1
         op = rng.choice(["setp", "setp", "setp", "ndens", "temp", "dim", "height", "rotate", "std", "convert"])
+        if rng.random() < 0.04:
+            op = "scopeassign"
         kw = {"idx": rng.randrange(1000), "u": uid}
         if op == "setp":
             kw["level"] = rng.choice(["reactor", "core", "assembly", "block", "component"])
@@ -357,7 +359,21 @@ def op_convert(d, st, actor):
     d.dirty = True
 
 
-OPS = {"convert": op_convert, "setp": op_setp, "ndens": op_ndens, "temp": op_temp, "dim": op_dim, "height": op_height, "rotate": op_rotate, "std": op_std}
+def op_scopeassign(d, st, actor):
+    """While a retainState scope is open on one block, a parameter nobody has assigned before is
+    assigned on *another* block (outside the scope): that value is part of the state to be saved."""
+    blks = c06.objects_at_level(actor.o.r, "block")
+    if len(blks) < 2:
+        return
+    a = blks[st["idx"] % len(blks)]
+    b = blks[(st["idx"] + 1) % len(blks)]
+    with a.retainState():
+        b.p.vP5 = 500.0 + st["u"]
+    d.probes["assigned_beside_an_open_scope"] += 1
+    d.dirty = True
+
+
+OPS = {"scopeassign": op_scopeassign, "convert": op_convert, "setp": op_setp, "ndens": op_ndens, "temp": op_temp, "dim": op_dim, "height": op_height, "rotate": op_rotate, "std": op_std}
 
 
 def refresh_derived(d, actor):
